@@ -51,7 +51,10 @@ ASSUMPTIONS = [
     'budget are compared with the model).  On a source WITHOUT that floor / budget (the pinned one) they admit at most 16 '
     'answers CAh and faults below a position the fuel exceeds, and scripts beyond that are not generated: there the code does '
     'not end (C13:get_sel_entry:unbounded-after-CAh, C13:get_and_clear_sel_entry:unbounded-after-C5h - C13\'s clause, not a '
-    'completion code lost) and this model saturates max_req_len at 0 where Python goes negative',
+    'completion code lost) and this model saturates max_req_len at 0 where Python goes negative.  The third repair of that loop '
+    '(C13:get_sel_entry:unbounded-on-empty-answer: RetryError on a "completed" answer without a record byte) is not in this '
+    'model (Model/ProgMore.selStep): a fault here is a completion code and the scripted BMC serves every fault-free read with '
+    'at least one byte (SelStorage), so the statement is never reached; SelFaults is unchanged',
     'the BMC is a fixed script (answers depend on the request only); a faulted answer is the bare code '
     '(sampled: code followed by the OK payload)',
     'SDR reads: the scripted BMC grants ONE reservation id for ever and the models sdrData / sdrEntries carry one reservation '
